@@ -75,7 +75,8 @@ def make_cases(tier, sd):
     cases = []
 
     def add(prefix, cfg, mode, **kw):
-        cases.append(dict(id="%s-%d" % (prefix, len(cases)), cfg=cfg, mode=mode, seed=rnd.randrange(1 << 30), **kw))
+        # every other case uses the cache the way target functions do: frozen with its module
+        cases.append(dict(id="%s-%d" % (prefix, len(cases)), cfg=cfg, mode=mode, seed=rnd.randrange(1 << 30), frozen=(len(cases) % 2 == 1), **kw))
 
     dcfgs = design_cfgs(tier)
     for c, h in gen_schedules(dcfgs, 600 if quick else 4000, sd):
